@@ -77,6 +77,9 @@ def _replay_chunk(keys):
     template = bool(getattr(cfg, "assignments", None))
     if template:
         from .template import check_build
+    mappable = bool(getattr(cfg, "mappings", None))
+    if mappable:
+        from .template import check_mappable
     relations = getattr(cfg, "relations", False)
     if relations:
         from .relations import check_relations
@@ -120,6 +123,9 @@ def _replay_chunk(keys):
                         hookv.append((pred, pre, detail))
                 if not why and switch and dev_index in cfg.init_devs:
                     for pred, detail in check_switch(cfg, run, ctx, proj, e[7]):
+                        hookv.append((pred, pre, detail))
+                if not why and mappable:
+                    for pred, detail in check_mappable(cfg, run, ctx, pre, e, proj):
                         hookv.append((pred, pre, detail))
                 if not why and relations:
                     for pred, detail in check_relations(cfg, run, ctx, proj):
